@@ -17,13 +17,15 @@ import (
 func init() {
 	register(&Prop{
 		ID:          "C06",
-		Explanation: "Decides sanitiser dominance for redirect targets: every http.Redirect in production code is enumerated and classified; the post-login, sign-in and sign-out redirects and the error/sign-in page links take, on every path, either result #0 of AppDirector.GetRedirect, the constant \"/\", or a value for which IsValidRedirect(value)==true was established on that path; GetRedirect returns only \"/\" or a candidate for which IsValidRedirect was true; the login redirect is provider.GetLoginURL(...), every implementation of which returns the String() of makeLoginURL's copy of the configured LoginURL, whose only field store is RawQuery; IsValidRedirect answers true only on the relative branch (prefix '/', not '//', no match of the invalid-redirect regex — atoms over the input only) or with IsEndpointAllowed(url.Parse(redirect), allowedDomains)==true after an error-free parse; IsEndpointAllowed answers true only for a non-empty whitelist host accepted by isHostnameAllowed together with one of the three port conditions; isHostnameAllowed admits sub-domains only through a suffix test whose operand is known to begin with '.', otherwise only by equality with the entry's bare name; and the relative-branch acceptance language, extracted from the path atoms and the regex constant, is disjoint — on the complete set of strings up to length 5 over a 15-symbol adversarial alphabet — from the strings that http.Redirect's rewriting followed by browser normalisation (tab/CR/LF removal, backslash as slash) turns into a scheme-relative '//' target. Added during the build: in request-reachable code no store goes into a field of the url.URL behind ProviderData.LoginURL/RedeemURL/ProfileURL/ValidateURL (R6). Round 4: Azure's tenant override rewrites only an unset or built-in default endpoint, and the rd candidate is read from req.Form, which holds query and body (R7). Round 5: GetRequestURI returns the forwarded-URI header value or the request URI itself, never a cut or rewritten string (R8). Round 6: the sign-in and error pages embed the redirect target they are handed, unchanged (R9). Round 7: request handling keeps no state of its own between requests — no store, map update, in-place builtin, atomic/sync.Map write or pointer-receiver library call (singleflight, caches) reached from ServeHTTP targets a package-level variable, an object built at start-up, or a constructor variable captured by the handler it returned, declared in the packages implementing this property (RS; a class-wide who-may-write rule with zero instances today: a correct memoisation would be reported until reviewed). The operator's whitelist_domains are read-only between option loading and the redirect validator (R10). Round 8: makeLoginURL sends state and redirect_uri exactly as handed in; the one escaping is url.Values.Encode's (R11).",
+		Explanation: "Decides sanitiser dominance for redirect targets: every http.Redirect in production code is enumerated and classified; the post-login, sign-in and sign-out redirects and the error/sign-in page links take, on every path, either result #0 of AppDirector.GetRedirect, the constant \"/\", or a value for which IsValidRedirect(value)==true was established on that path; GetRedirect returns only \"/\" or a candidate for which IsValidRedirect was true; the login redirect is provider.GetLoginURL(...), every implementation of which returns the String() of makeLoginURL's copy of the configured LoginURL, whose only field store is RawQuery; IsValidRedirect answers true only on the relative branch (prefix '/', not '//', no match of the invalid-redirect regex — atoms over the input only) or with IsEndpointAllowed(url.Parse(redirect), allowedDomains)==true after an error-free parse; IsEndpointAllowed answers true only for a non-empty whitelist host accepted by isHostnameAllowed together with one of the three port conditions; isHostnameAllowed admits sub-domains only through a suffix test whose operand is known to begin with '.', otherwise only by equality with the entry's bare name; and the relative-branch acceptance language, extracted from the path atoms and the regex constant, is disjoint — on the complete set of strings up to length 5 over a 15-symbol adversarial alphabet — from the strings that http.Redirect's rewriting followed by browser normalisation (tab/CR/LF removal, backslash as slash) turns into a scheme-relative '//' target. Added during the build: in request-reachable code no store goes into a field of the url.URL behind ProviderData.LoginURL/RedeemURL/ProfileURL/ValidateURL (R6). Round 4: Azure's tenant override rewrites only an unset or built-in default endpoint, and the rd candidate is read from req.Form, which holds query and body (R7). Round 5: GetRequestURI returns the forwarded-URI header value or the request URI itself, never a cut or rewritten string (R8). Round 6: the sign-in and error pages embed the redirect target they are handed, unchanged (R9). Round 7: request handling keeps no state of its own between requests — no store, map update, in-place builtin, atomic/sync.Map write or pointer-receiver library call (singleflight, caches) reached from ServeHTTP targets a package-level variable, an object built at start-up, or a constructor variable captured by the handler it returned, declared in the packages implementing this property (RS; a class-wide who-may-write rule with zero instances today: a correct memoisation would be reported until reviewed). The operator's whitelist_domains are read-only between option loading and the redirect validator (R10). Round 8: makeLoginURL sends state and redirect_uri exactly as handed in; the one escaping is url.Values.Encode's (R11). Round 8 (class-wide, P12): in the packages implementing this property every named error result that is used at all is examined — compared with nil, returned, stored or handed to a non-formatting function — unless the code validates the value result instead (RE; zero instances today).",
 		NotDecided:  "parser differentials on absolute URLs between url.Parse and browsers; strings longer than the enumeration bound or outside its alphabet; 'lands byte for byte' (value round trip through state).",
 		Run:         runC06,
 	})
 }
 
 func runC06(c *Ctx) {
+	c.R.Rule("RE-errors-examined", "in the packages implementing this property every named error result that is used at all is examined, or the value is validated instead (P12, class-wide, round 8)", 1)
+	runErrorsExamined(c, "RE-errors-examined", "pkg/app")
 	c.R.Rule("RS-no-request-time-state", "request handling writes no state that outlives the request (package-level variables, objects built at start-up, constructor variables captured by handlers) declared in the packages implementing this property", 1)
 	runStateless(c, "RS-no-request-time-state", "pkg/app", "providers.ProviderData")
 	r := c.R
